@@ -32,6 +32,9 @@ GRID = [
     dict(enc=False, cipher=None, hashing=None, mn=64, mx=256, conc=2, piece=100),
     dict(enc=True, cipher={'name': 'aes_gcm', 'key_bits': 192}, hashing={'name': 'sha2', 'bits': 512}, mn=16, mx=64, conc=8, piece=None),
     dict(enc=True, cipher=None, hashing={'name': 'sha3', 'bits': 224}, mn=12, mx=12, conc=1, piece=24),
+    # non-default nonce sizes: what is written must follow the size recorded in config (an independent reader splits nonce | ciphertext by it)
+    dict(enc=True, cipher={'name': 'aes_gcm', 'nonce_bits': 128}, hashing=None, mn=8, mx=64, conc=2, piece=40),
+    dict(enc=True, cipher={'name': 'aes_gcm', 'key_bits': 128, 'nonce_bits': 64}, hashing={'name': 'blake2b', 'length': 24}, mn=16, mx=48, conc=3, piece=None),
 ]
 
 
